@@ -8,6 +8,7 @@ import (
 	"sync"
 
 	"github.com/risor-io/risor/compiler"
+	"github.com/risor-io/risor/internal/verifhook"
 	"github.com/risor-io/risor/object"
 )
 
@@ -50,6 +51,7 @@ func NewFSImporter(opts FSImporterOptions) *FSImporter {
 
 // Import a module by name.
 func (i *FSImporter) Import(ctx context.Context, name string) (*object.Module, error) {
+	verifhook.Yield("reg.lock")
 	i.mutex.Lock()
 	defer i.mutex.Unlock()
 
